@@ -10,6 +10,7 @@ import (
 	"bytes"
 	"fmt"
 	"io"
+	"os"
 	"regexp"
 	"strings"
 	"syscall"
@@ -38,11 +39,15 @@ func run(e *harness.Env) {
 		"math/big decimal conversion is correct (expected values of number leaves)",
 		"reals are compared with relative tolerance 1e-6 (single precision), everything else exactly",
 	}
-	leafSpace(e)
-	treeSpace(e)
-	progSpace(e)
-	deepSpace(e)
-	quirkSpace(e)
+	only := os.Getenv("C06_ONLY") // development switch: run a single space
+	for _, sp := range []struct {
+		name string
+		f    func(*harness.Env)
+	}{{"leaf", leafSpace}, {"tree", treeSpace}, {"prog", progSpace}, {"deep", deepSpace}, {"quirk", quirkSpace}} {
+		if only == "" || only == sp.name {
+			sp.f(e)
+		}
+	}
 }
 
 // ---- running one case ------------------------------------------------------------------------------
@@ -401,19 +406,26 @@ func harnessClean(s string) string {
 // ---- space "tree": all small trees x policy ---------------------------------------------------------------------
 
 func treeSpace(e *harness.Env) {
-	depth := 2
-	leaves := treeLeaves(false)
+	// every tree of depth <= 2 over the 13-leaf alphabet; thorough adds every tree of depth exactly 3 over 6 leaves
+	trees := enumTrees(treeLeaves(false), 2)
+	n2 := len(trees)
 	if e.Thorough() {
-		depth = 3
-		leaves = treeLeaves(true)
+		for _, t := range enumTrees(treeLeaves(true), 3) {
+			if t.depth() == 3 {
+				trees = append(trees, t)
+			}
+		}
 	}
-	trees := enumTrees(leaves, depth)
-	e.Note("tree_space", fmt.Sprintf("%d trees of depth<=%d over %d leaves", len(trees), depth, len(leaves)))
-	for _, t := range trees {
+	e.Note("tree_space", fmt.Sprintf("%d trees of depth<=2 over 13 leaves, %d trees of depth 3 over 6 leaves", n2, len(trees)-n2))
+	for ti, t := range trees {
 		f := treeStats(t)
 		pols := allPolicies(f, wsOpts, cmtOpts, eolOpts, strOpts, nameOpts)
 		base := "space=tree t=" + harnessClean(t.id) + " " + featDesc(f)
-		for _, fo := range []string{"none", "int"} {
+		follows := []string{"none", "int"}
+		if ti >= n2 {
+			follows = follows[:1]
+		}
+		for _, fo := range follows {
 			var fn *node
 			if fo != "none" {
 				fn = followers[fo]
